@@ -12,6 +12,7 @@ from __future__ import annotations
 
 import logging
 from dataclasses import dataclass
+from functools import partial
 from typing import TYPE_CHECKING, Self, cast
 
 import numpy as np
@@ -26,15 +27,27 @@ from mxlpy.symbolic import to_symbolic_model
 from mxlpy.types import IntegrationFailure, Result
 
 if TYPE_CHECKING:
+    from collections.abc import Callable, Iterable
+
     from mxlpy.integrators import IntegratorProtocol, IntegratorType
     from mxlpy.model import Model
-    from mxlpy.types import ArrayLike
+    from mxlpy.types import ArrayLike, Rhs
 
 _LOGGER = logging.getLogger(__name__)
 
 __all__ = [
     "Simulator",
 ]
+
+
+def _call_at_shifted_time[T](
+    fn: Callable[[float, Iterable[float]], T],
+    shift: float,
+    time: float,
+    variables: Iterable[float],
+) -> T:
+    """Call a function of (time, variables) at time + shift."""
+    return fn(time + shift, variables)
 
 
 @dataclass(
@@ -130,9 +143,17 @@ class Simulator:
             except Exception as e:  # noqa: BLE001
                 _LOGGER.warning(str(e), stacklevel=2)
 
+        # After an override the integrator restarts at 0, but the model has to keep
+        # seeing the absolute time
+        rhs: Rhs = self.model
+        if (shift := self._time_shift) is not None:
+            rhs = partial(_call_at_shifted_time, self.model, shift)
+            if jac_fn is not None:
+                jac_fn = partial(_call_at_shifted_time, jac_fn, shift)
+
         y0 = self.y0
         self.integrator = self._integrator_type(
-            self.model,
+            rhs,
             tuple(y0[k] for k in self.model.get_variable_names()),
             jac_fn,
         )
